@@ -77,7 +77,7 @@ def expected(ctx, L):
 def run(ctx):
     proof = common.proof_status(ctx)
     rng = ctx.rng
-    flavs = [0, 1, 5] if ctx.tier == "quick" else gen.FLAVOURS
+    flavs = gen.FLAVOURS
     A, B, D = hexs(b"fileA"), hexs(b"fileB"), hexs(b"dirD")
     for flav in flavs:
         base, bs = base_history(ctx, flav)
@@ -96,13 +96,11 @@ def run(ctx):
                         plan.append((oi, "rd", k))
                     for k in range(1, nw + 1):
                         plan.append((oi, "wr", k))
-                if ctx.tier == "quick" and len(plan) > 14:
-                    plan = rng.sample(plan, 14)
+                jobs = []
                 for (oi, rw, k) in plan:
                     L = base + g[:oi] + ["fault %s %d" % (rw, k), g[oi], "fault clear"] + g[oi + 1:]
                     touched_a = any(A in x for x in g) and kind == "write-side"
                     touched_b = any(B in x for x in g) and kind == "write-side"
-                    ver = [] if kind == "write-side" and touched_a and touched_b else verify
                     L += ["fault clear"]
                     vstart = len(L)
                     if not touched_a:
@@ -116,7 +114,15 @@ def run(ctx):
                         L += ["open 5 %s %s r" % (D, B), "read 5 %d" % (5 * bs), "close 5"]
                     L += ["umount", "umountdev"]
                     variant = "adfh-asan" if (ctx.tier == "thorough" or rng.random() < 0.3) else "adfh"
+                    jobs.append((oi, rw, k, L, vstart, variant))
+
+                def one(job):
+                    oi, rw, k, L, vstart, variant = job
                     rc, out, err, wd = common.run_script(ctx, "\n".join(L) + "\n", variant=variant, timeout=120)
+                    import shutil
+                    shutil.rmtree(wd, ignore_errors=True)
+                    return rc, out, err
+                for (oi, rw, k, L, vstart, variant), (rc, out, err) in zip(jobs, common.pmap(one, jobs)):
                     res = common.parse_results(out)
                     ctx.count((flav, kind, tuple(g), oi, rw, k))
                     ctx.bump("fault:%s:%s" % (kind, rw))
@@ -144,7 +150,12 @@ def run(ctx):
                                 # the returned bytes must be the true bytes at the offset where the read started; a read that starts after an
                                 # earlier short read starts at the position the earlier calls left, which we do not track exactly: compare as
                                 # substring of the file's true content around the expected slice start
-                                if not wd_.startswith(gd) and j == oi:
+                                after_ok_seek = False
+                                if j == oi + 1 and g[oi].startswith("seek"):
+                                    # the faulted call was a seek that reported success: the read after it starts at the seek target
+                                    sk = (res.get(len(base) + oi + 2) or ["?"])[-1]
+                                    after_ok_seek = sk.startswith("ok") and common.kv(sk)[1].get("pos") == g[oi].split()[2]
+                                if not wd_.startswith(gd) and (j == oi or after_ok_seek):
                                     ctx.fail("oracle", "a read call returned bytes that differ from the file's true content (device read failure injected)", inp,
                                              expected="a prefix of %s..." % wd_[:40], actual=gd[:80])
                     # (3) bystanders read back correctly once the fault is cleared (same session and after remount)
@@ -174,7 +185,7 @@ def run(ctx):
             break
     rule = ("base volume with a 75-block file and a small file in a subdirectory; target groups: sequential/positioned reads across block and extension boundaries, "
             "listings and lookups (hash and cache), overwrite, create, mkdir/delete/move, truncate/comment; for each call of a group one run per device read and per "
-            "device write it performs with exactly that transfer failing (quick: sample of 14 per group); distinct = (flavour, group, call, transfer)")
+            "device write it performs with exactly that transfer failing (all of them, all six flavours, both tiers); distinct = (flavour, group, call, transfer)")
     return common.finish(ctx, proof, rule, level="fault_enumeration",
                          assumptions=["a failing device read leaves a recognisable garbage pattern in the caller's buffer",
                                       "content of a file whose own write was interrupted by the fault is not judged (only that nothing crashes and bystanders survive)"])
